@@ -456,13 +456,26 @@ class SpooledStringIO(SpooledIOBase):
 
     def readline(self, length=None):
         self._checkClosed()
-        ret = self.buffer.readline(length).decode('utf-8')
+        # the codec reader also ends lines at \r (and \x0b, \x0c,
+        # \x1c-\x1e, \x85, \u2028, \u2029). As with io.StringIO and
+        # SpooledBytesIO, only \n ends a line here, so keep going.
+        parts = []
+        while True:
+            part = self.buffer.readline(length).decode('utf-8')
+            parts.append(part)
+            if not part or part.endswith('\n'):
+                break
+        ret = ''.join(parts)
         self._tell = self.tell() + len(ret)
         return ret
 
     def readlines(self, sizehint=0):
-        ret = [x.decode('utf-8') for x in self.buffer.readlines(sizehint)]
-        self._tell = self.tell() + sum(len(x) for x in ret)
+        ret = []
+        while True:
+            line = self.readline()
+            if not line:
+                break
+            ret.append(line)
         return ret
 
     @property
